@@ -55,14 +55,15 @@ type nameAt struct {
 }
 
 type entity struct {
-	key  key
-	name string
-	k    int
-	ver  int64
-	dis  bool
-	ok   bool
-	hist []nameAt // every (version, name) of this entity at the source
-	data int      // data variant counter
+	key    key
+	name   string
+	k      int
+	ver    int64
+	dis    bool
+	ok     bool
+	hist   []nameAt // every (version, name) of this entity at the source
+	data   int      // data variant counter
+	drafts int      // metrics: number of tags_draft entries (0, or 2..8)
 }
 
 type replica struct {
@@ -89,6 +90,7 @@ type world struct {
 
 	dropByKey    map[key]bool
 	pendingPanic string
+	pendingViol  [][2]string // oracle lines found while interning (printed by announce, inside the case)
 }
 
 func (w *world) nt(tag string) {
@@ -162,8 +164,23 @@ func (w *world) internEvent(e tlmetadata.Event) int {
 	w.intern[e] = k
 	w.contents = append(w.contents, c)
 	// closure under transport and compaction (both observed on the real code)
-	c.t = w.internEvent(transport(e))
+	te := transport(e)
+	c.t = w.internEvent(te)
 	ce, keep, _ := metajournal.VerifC20Compact(e)
+	// The model (and `synced_same_hash` / `replicas_same_hash`) treats transport and compaction as FUNCTIONS of the event.
+	// Checked on the real code: repeated calls give identical events (Go map order must not leak into the result).
+	for i := 0; i < 6; i++ {
+		ce2, keep2, _ := metajournal.VerifC20Compact(e)
+		if keep2 != keep || ce2 != ce {
+			w.pendingViol = append(w.pendingViol, [2]string{"compaction-not-deterministic", fmt.Sprintf("compactJournalEvent gave two different results for the same event type=%d id=%d %q: Data %q vs %q", e.EventType, e.Id, e.Name, clip(ce.Data), clip(ce2.Data))})
+			break
+		}
+		if te2 := transport(e); te2 != te {
+			w.pendingViol = append(w.pendingViol, [2]string{"transport-not-deterministic", fmt.Sprintf("diff+TL transport gave two different results for event type=%d id=%d", e.EventType, e.Id)})
+			break
+		}
+	}
+	w.h.Stat("oracle.deterministic", 1)
 	if !keep {
 		c.c = -1
 	} else {
@@ -174,7 +191,18 @@ func (w *world) internEvent(e tlmetadata.Event) int {
 
 // emit `def` lines for every content not yet announced in this case (in index order, so that t/c references may
 // point forward; the model stores the table and resolves lazily)
+func clip(s string) string {
+	if len(s) > 160 {
+		return s[:160] + "..."
+	}
+	return s
+}
+
 func (w *world) announce(upto *int) {
+	for _, v := range w.pendingViol {
+		w.h.Viol(v[0], "%s", v[1])
+	}
+	w.pendingViol = nil
 	for *upto < len(w.contents) {
 		c := w.contents[*upto]
 		e := c.ev
@@ -224,6 +252,7 @@ func (w *world) evList(evs []tlmetadata.Event) string {
 		if !ok {
 			k = w.internEvent(e2) // unknown content (should not happen: closure is announced); announced late
 			w.h.Stat("late.intern", 1)
+			w.h.Viol("stored-content-unpredicted", "a journal holds an event (type=%d id=%d %q v%d) that is neither a source event nor its transported/compacted form as computed by the same real functions", e.EventType, e.Id, e.Name, e.Version)
 		}
 		ss[i] = fmt.Sprintf("%d:%d", e.Version, k)
 	}
@@ -794,7 +823,16 @@ func (w *world) makeData(ent *entity) string {
 		tags := []string{`{"name":"env"}`, `{"name":"env"},{"name":"k1","description":"c"}`, `{},{"name":"k2","raw":true}`, `{"name":"env"},{"name":""},{"name":""}`}[(v/2)%4]
 		kind := []string{"counter", "value", "value_p", "mixed_p"}[(v/3)%4]
 		res := []int{1, 1, 5, 15}[(v/5)%4]
-		return fmt.Sprintf(`{"description":%q,"tags":[%s],"kind":%q,"resolution":%d,"weight":%d,"disable":%v}`, desc+w.pad(), tags, kind, res, 1+(v/7)%2, ent.dis)
+		// tags_draft is a Go map: a compaction that does not serialise it in a fixed order is not a function of the event
+		drafts := ""
+		if nd := ent.drafts; nd > 0 {
+			var ds []string
+			for i := 0; i < nd; i++ {
+				ds = append(ds, fmt.Sprintf(`"draft%d":{"name":"draft%d","description":"x%d"}`, (i*5+v)%11, (i*5+v)%11, v))
+			}
+			drafts = fmt.Sprintf(`,"tags_draft":{%s}`, strings.Join(ds, ","))
+		}
+		return fmt.Sprintf(`{"description":%q,"tags":[%s]%s,"kind":%q,"resolution":%d,"weight":%d,"disable":%v}`, desc+w.pad(), tags, drafts, kind, res, 1+(v/7)%2, ent.dis)
 	case format.MetricsGroupEvent:
 		return fmt.Sprintf(`{"weight":%d,"disable":%v,"junk":%q}`, 1+v%3, ent.dis, w.pad())
 	case format.NamespaceEvent:
@@ -879,6 +917,10 @@ func (w *world) create(upto *int) bool {
 		return false
 	}
 	ent := &entity{key: key{typ, id}, name: name}
+	if typ == format.MetricEvent && w.r.Chance(2, 5) {
+		ent.drafts = w.r.Range(2, 8)
+		w.h.Stat("src.metric.with-drafts", 1)
+	}
 	w.ents[ent.key] = ent
 	w.keys = append(w.keys, ent.key)
 	mal := 0
@@ -899,6 +941,9 @@ func (w *world) edit(upto *int) bool {
 	ent := w.pickEntity(format.MetricEvent, format.MetricEvent, format.MetricsGroupEvent, format.NamespaceEvent, format.DashboardEvent, format.PromConfigEvent, 7)
 	if ent == nil {
 		return false
+	}
+	if ent.key.typ == format.MetricEvent && w.r.Chance(1, 6) {
+		ent.drafts = []int{0, 2, 3, 5, 8}[w.r.Intn(5)]
 	}
 	if w.r.Chance(2, 3) {
 		ent.data++ // often a description-only change
@@ -1014,13 +1059,17 @@ func runCase(h *verifx.H, r *verifx.Rng, idx int) {
 		up      int
 	}
 	cfgs := []cfg{{false, -1}, {true, 0}, {false, 1}, {false, 1}}
-	switch r.Intn(4) {
+	switch r.Pick(2, 1, 2, 1, 4) {
 	case 0:
 		cfgs = append(cfgs, cfg{false, 0}, cfg{false, 4})
 	case 1:
 		cfgs = append(cfgs, cfg{false, 0})
 	case 2:
 		cfgs = append(cfgs, cfg{true, 1}) // compact replica of a compact journal (ingress proxy role)
+	case 4:
+		// a second compact aggregator of the same source (+ its agent): two same-kind replicas of one journal must agree
+		cfgs = append(cfgs, cfg{true, 0}, cfg{false, 4})
+		h.Stat("case.two-compact-siblings", 1)
 	}
 	var parts []string
 	for i, c := range cfgs {
@@ -1119,7 +1168,40 @@ func runCase(h *verifx.H, r *verifx.Rng, idx int) {
 
 // runWitness: the minimal histories of the defect class (one per entity type, plus one with a regrouping pass while two
 // metrics transiently carry the same name). Deterministic, four cases.
+// witness 4: one metric with five draft tags, two compact aggregators of the same source: same kind, same journal,
+// both synced, so events and hashes must be identical (compaction has to be a function of the event).
+func runWitnessDrafts(h *verifx.H, r *verifx.Rng) {
+	w := &world{h: h, r: r, intern: map[tlmetadata.Event]int{}, ents: map[key]*entity{}, freed: map[int32][]string{}, tags: map[string]bool{}, dropByKey: map[key]bool{}}
+	for i := 0; i < 3; i++ {
+		rep := &replica{up: 0, compact: i > 0}
+		rep.st = metajournal.MakeMetricsStorage(nil)
+		rep.j, _ = metajournal.LoadJournalFastSlice(&rep.file, 0, rep.compact, []metajournal.ApplyEvent{rep.st.ApplyEvent})
+		w.reps = append(w.reps, rep)
+	}
+	h.Op("new 3 1:0 1:0")
+	upto := 0
+	for i := 1; i <= 3; i++ {
+		ent := &entity{key: key{format.MetricEvent, int64(i)}, name: fmt.Sprintf("m%d", i), drafts: []int{0, 5, 8}[i-1]}
+		w.ents[ent.key] = ent
+		w.keys = append(w.keys, ent.key)
+		w.ver++
+		e := tlmetadata.Event{Id: ent.key.id, Name: ent.name, EventType: ent.key.typ, Version: w.ver, UpdateTime: uint32(1000 + w.ver), Data: w.makeData(ent)}
+		w.commit(ent, e)
+		w.opSrc(e, &upto, "create")
+	}
+	w.nt("name-reuse") // counted with the witness family
+	w.opDeliver(1, 1000, 800*1024, inf)
+	w.opDeliver(2, 1, 800*1024, inf)
+	w.opDeliver(2, 1000, 800*1024, inf)
+	w.oracleSynced("drain")
+	h.Stat("cases.witness", 1)
+}
+
 func runWitness(h *verifx.H, r *verifx.Rng, idx int) {
+	if idx == 4 {
+		runWitnessDrafts(h, r)
+		return
+	}
 	w := &world{h: h, r: r, intern: map[tlmetadata.Event]int{}, ents: map[key]*entity{}, freed: map[int32][]string{}, tags: map[string]bool{}, dropByKey: map[key]bool{}}
 	for i := 0; i < 2; i++ {
 		rep := &replica{up: 0}
